@@ -430,7 +430,7 @@ func init() {
 			{Name: "dags-n1to3", Body: c08Body(1, 3, map[string]int{"quick": 3, "thorough": 3}), DevBound: map[string]int{"quick": 2, "thorough": 7},
 				Budget: map[string]time.Duration{"quick": 60 * time.Second, "thorough": 10 * time.Minute}},
 			{Name: "dags-n4", Body: c08Body(4, 4, map[string]int{"quick": 2, "thorough": 3}), DevBound: map[string]int{"quick": 1, "thorough": 2},
-				Budget: map[string]time.Duration{"quick": 60 * time.Second, "thorough": 14 * time.Minute}},
+				Budget: map[string]time.Duration{"quick": 3 * time.Minute, "thorough": 14 * time.Minute}},
 			{Name: "dags-n5", OnlyTier: "thorough", Body: c08Body(5, 5, map[string]int{"thorough": 2}), DevBound: map[string]int{"thorough": 1},
 				Budget: map[string]time.Duration{"thorough": 14 * time.Minute}},
 			{Name: "ladders", Body: c08Ladder, Budget: map[string]time.Duration{"quick": 60 * time.Second, "thorough": 5 * time.Minute}},
